@@ -27,6 +27,12 @@
 (*  DevDupDeclMerged      repeated import/export/forward declarations of one name in a    *)
 (*                        module are merged silently (MIR.md: "names of ... imports ...   *)
 (*                        should be unique in a module").                                 *)
+(*  DevDanglingAccepted   an export or forward declaration of a name the module does not  *)
+(*                        define is accepted silently by load and link (mir.c has the     *)
+(*                        errors "export/forward of undefined item" but its lookup finds  *)
+(*                        the declaration itself, so they cannot be raised; MIR.md says   *)
+(*                        nothing).  Such a name gets no binding; the harness does not    *)
+(*                        reference it (a reference makes MIR_link loop forever).         *)
 EXTENDS Integers, Sequences, SequencesExt, FiniteSets, TLC, Json, Emit, IOUtils
 
 CONSTANTS Names,      \* global names, e.g. {"a","b","c"}
@@ -75,8 +81,8 @@ AllShapes == <<
   (* 7   *) <<D("f", "b"), D("e", "b"), D("i", "b")>>,       \* import of a local definition: import_export
   (* 8   *) <<D("e", "c"), D("i", "c")>>,                    \* import of an exported name: import_export
   (* 9   *) <<D("f", "a"), D("d", "a")>>,                    \* two definitions: repeated_decl
-  (* 10  *) <<D("e", "b"), D("i", "a")>>,                    \* export without definition: error at link
-  (* 11  *) <<D("i", "c"), D("w", "b")>>                     \* forward without definition: error at link
+  (* 10  *) <<D("e", "b"), D("i", "a")>>,                    \* export without definition (DevDanglingAccepted)
+  (* 11  *) <<D("i", "c"), D("w", "b")>>                     \* forward without definition (DevDanglingAccepted)
 >>
 
 NoEntry == [def |-> "", imp |-> FALSE, exp |-> FALSE, fwd |-> FALSE]
@@ -194,7 +200,7 @@ LinkDecls(decls, i, m, useRes, R, acc) ==
                      [acc EXCEPT !.calls = Append(@, n), !.env = [@ EXCEPT ![n] = ResDef],
                                  !.hist = Append(@, [n |-> n, d |-> ResDef]), !.b = (key :> ResDef) @@ @])
     ELSE IF k \in {"e", "w"} THEN
-      IF Tab(m.s)[n].def = "" THEN [acc EXCEPT !.err = "undeclared_op_ref"]
+      IF Tab(m.s)[n].def = "" THEN LinkDecls(decls, i + 1, m, useRes, R, acc)            \* DevDanglingAccepted
       ELSE IF k = "w" THEN LinkDecls(decls, i + 1, m, useRes, R,
                                      [acc EXCEPT !.b = (key :> MirDef(m.s, m.v, Tab(m.s)[n].def)) @@ @])
       ELSE LinkDecls(decls, i + 1, m, useRes, R, acc)
@@ -252,8 +258,7 @@ BindLatest ==
 
 (* A forward declaration refers to the module's own item, whatever other modules export. *)
 LocalBinding ==
-  \A m \in SeqRange(linked) : \A n \in ForwardsOf(m.s) :
-    /\ n \in DefsOf(m.s)
+  \A m \in SeqRange(linked) : \A n \in ForwardsOf(m.s) \cap DefsOf(m.s) :
     /\ bound[<<m.s, m.v, n>>] = MirDef(m.s, m.v, Tab(m.s)[n].def)
 
 (* Loading a second exported function of a name is rejected unless permitted.            *)
@@ -270,9 +275,8 @@ ConstructErrors ==
 UndefinedReported ==
   ev.a = "link" =>
     LET pre == SubSeq(defHist, 1, ev.len)
-        bad == \E i \in 1..Len(ev.batch) :
-                 \/ Dangling(ev.batch[i].s) # {}
-                 \/ \E n \in ImportsOf(ev.batch[i].s) : ~HasAnyDef(pre, n) /\ ~(ev.useRes /\ n \in ev.R)
+        bad == \E i \in 1..Len(ev.batch) :                        \* (Dangling(..) # {} is not reported: DevDanglingAccepted)
+                 \E n \in ImportsOf(ev.batch[i].s) : ~HasAnyDef(pre, n) /\ ~(ev.useRes /\ n \in ev.R)
     IN /\ (err = "undeclared_op_ref") <=> bad
        /\ err \in {"", "undeclared_op_ref"}
        /\ err = "" => toLink = <<>> /\ \A i \in 1..Len(ev.batch) : ev.batch[i] \in SeqRange(linked)
@@ -297,7 +301,8 @@ PartOf(hh) == ((StepKey(hh[1]) * 7 + StepKey(hh[2])) % NParts) + 1
 InPart(hh) == Part = 0 \/ Len(hh) < 2 \/ PartOf(hh) = Part              \* explored in this JVM
 Mine(hh) == Part = 0 \/ (IF Len(hh) < 2 THEN Part = 1 ELSE PartOf(hh) = Part)   \* emitted by this JVM
 Bound == InPart(h)
-Emit == Mine(h') => EmitJ([h |-> h'])
+FinEnv == [i \in 1..Len(SetToSeq(Names)) |-> <<SetToSeq(Names)[i]>> \o DefT(env'[SetToSeq(Names)[i]])]
+Emit == Mine(h') => EmitJ([h |-> h', fin |-> FinEnv])
 (* simulation: only complete behaviours *)
-EmitEnd == (Len(h') = Depth \/ err' # "") => EmitJ([h |-> h'])
+EmitEnd == (Len(h') = Depth \/ err' # "") => EmitJ([h |-> h', fin |-> FinEnv])
 =============================================================================
